@@ -41,6 +41,19 @@ EXPRS = [
     ("if a < b then a else b", ["(if a < b then a else b)", "if (a < b) then (a) else (b)",
                                 "if a < b then a else b;"]),
     ("def x = a; x + b", ["def x = (a); (x + b)", "def x = a; x + b;"]),
+    # optional semicolons after statements, catch handlers and before finally / end
+    ("do error a catch 1 b catch 2 c catch all 0 end",
+     ["do error a catch 1 b; catch 2 c; catch all 0; end", "do error a; catch 1 b catch 2 c; catch all 0 end",
+      "do error (a) catch 1 b; catch 2 c catch all 0 end;", "do error a catch 1 b catch 2 c; catch all 0 end"]),
+    ("do error a catch b 1 catch c 2 catch all 3 finally 4 end",
+     ["do error a; catch b 1; catch c 2; catch all 3; finally 4; end", "do error a catch b 1; catch c 2 catch all 3 finally 4 end",
+      "do error a catch b 1 catch c 2; catch all 3; finally 4 end"]),
+    ("do a + b finally c end", ["do a + b; finally c end", "do a + b; finally c; end", "do (a + b) finally (c) end;"]),
+    ("def f(x) do x + a end; f(b) * c", ["def f(x) do x + a; end; f(b) * c;", "def f(x) do (x + a) end; (f(b) * c)"]),
+    ("def r = 0; for x in [a, b, c] do r += x end; r", ["def r = 0; for x in [a, b, c] do r += x; end; r;"]),
+    ("def r = a; while r < b do r += 7 end; r", ["def r = a; while r < b do r += 7; end; r;"]),
+    ("if a < b then do a end elif a < c then do b end else do c end",
+     ["if a < b then do a; end elif a < c then do b; end else do c; end;", "if (a < b) then do (a) end elif (a < c) then do (b) end else do (c) end"]),
 ]
 
 
